@@ -324,3 +324,107 @@ class Exists(_KP):
   def small_models(self):
     from pyvc.contracts import Model
     yield Model({}, {})
+
+
+# ---------------------------------------------------------------------------
+# Order of paths ("path comparison is a strict weak order consistent with
+# equality"): each of the four comparison operators of KeyPath -- and each of
+# the six of the per-key wrapper -- hands *its own* operator to `_compare`,
+# and the per-key comparison orders integer keys numerically, string keys
+# lexicographically, and every integer key before every string key, for each of
+# the six operators (so that <, <=, >, >=, ==, != on keys are those of one total
+# order on (is_str, value)).
+
+import operator as _operator   # noqa: E402  pylint: disable=wrong-import-position
+
+_OPS = {'__lt__': _operator.lt, '__le__': _operator.le, '__gt__': _operator.gt, '__ge__': _operator.ge,
+        '__eq__': _operator.eq, '__ne__': _operator.ne}
+
+
+class _OperatorDispatch(Contract):
+  prop = 'C10'
+  owner = None
+  method = None
+
+  def inputs(self, b):
+    self._other = SAny('other')
+    self._self = SObj(self.owner, {'key': SAny('key')}, name='self')
+    return dict(self=self._self, other=self._other), {}
+
+  def setup_policy(self, policy):
+    def compare(interp, frame, args, kwargs):
+      interp.path.event('compare', '_compare', [interp.resolve(a) for a in args])
+      return SBool(z3.Bool('comparison_result'))
+    policy.contracts[f'{VL}:KeyPath._compare'] = compare
+    policy.contracts[f'{VL}:KeyPath._KeyComparisonWrapper._compare'] = compare
+
+  def trace_delegates_with_its_own_operator(self, events, outcome, interp, env):
+    c = [e for e in events if e.kind == 'compare']
+    if outcome[0] != 'return' or len(c) != 1:
+      return False
+    a = c[0].data
+    return a[-3] is self._self and a[-2] is self._other and a[-1] is _OPS[self.method]
+
+  def small_models(self):
+    from pyvc.contracts import Model
+    yield Model({}, {})
+
+  def replay(self, obligation, m):
+    K = pg.KeyPath
+    bad = []
+    pairs = [(K(['a', 1]), K(['a', 1])), (K(['a', 1]), K(['a', 2])), (K(['a']), K(['a', 0])), (K([1]), K(['1'])), (K(['b']), K(['a']))]
+    for x, y in pairs:
+      lt, le, gt, ge, eq = x < y, x <= y, x > y, x >= y, x == y
+      if not (le == (lt or eq) and ge == (gt or eq) and gt == (y < x) and (lt + eq + gt) == 1 and (x != y) == (not eq)):
+        bad.append(f'{x!r} vs {y!r}: <:{lt} <=:{le} >:{gt} >=:{ge} ==:{eq}')
+    return dict(outcome='reproduced' if bad else 'not-reproduced', detail='; '.join(bad) or 'operators consistent')
+
+
+for _owner, _q, _methods in ((vl.KeyPath, 'KeyPath', ('__lt__', '__le__', '__gt__', '__ge__')),
+                             (vl.KeyPath._KeyComparisonWrapper, 'KeyPath._KeyComparisonWrapper',
+                              ('__lt__', '__le__', '__gt__', '__ge__', '__eq__', '__ne__'))):
+  for _m in _methods:
+    _n = f'OperatorDispatch_{_q.replace(".", "_")}{_m}'
+    globals()[_n] = register(type(_n, (_OperatorDispatch,), dict(
+        target=f'{VL}:{_q}.{_m}', owner=_owner, method=_m, name=f'{_q}.{_m}/own-operator', __module__=__name__)))
+
+
+@register
+class KeyOrder(Contract):
+  """_KeyComparisonWrapper._compare for int / str keys under each operator."""
+  prop = 'C10'
+  target = f'{VL}:KeyPath._KeyComparisonWrapper._compare'
+  variants = tuple((op, ka, kb) for op in _OPS for ka in ('int', 'str') for kb in ('int', 'str'))
+
+  def label(self):
+    op, ka, kb = self.variant
+    return f'KeyPath._KeyComparisonWrapper._compare[{op},{ka}~{kb}]'
+
+  def inputs(self, b):
+    op, ka, kb = self.variant
+    self._a = b.int('a') if ka == 'int' else b.str('a')
+    self._b = b.int('b') if kb == 'int' else b.str('b')
+    s = SObj(vl.KeyPath._KeyComparisonWrapper, {'key': self._a}, name='self')
+    o = SObj(vl.KeyPath._KeyComparisonWrapper, {'key': self._b}, name='other')
+    return dict(self=s, other=o, comparison=_OPS[op]), {}
+
+  def setup_policy(self, policy):
+    import ast
+    # the `operator` module functions are the comparison operators themselves
+    for fn, node in ((_operator.lt, ast.Lt), (_operator.le, ast.LtE), (_operator.gt, ast.Gt),
+                     (_operator.ge, ast.GtE), (_operator.eq, ast.Eq), (_operator.ne, ast.NotEq)):
+      policy.handlers[id(fn)] = (lambda node: lambda interp, a, k, f: interp.compare(node, a[0], a[1], f))(node)
+
+  @direct
+  def ensures_is_the_operator_of_one_total_order_ints_before_strs(self, interp, env):
+    op, ka, kb = self.variant
+    r = interp.truth_z(env['result'])
+    r = z3.BoolVal(r) if isinstance(r, bool) else r
+    a, b_ = interp.to_z3(self._a), interp.to_z3(self._b)
+    if ka == kb:
+      lt, eq = a < b_, a == b_
+    else:
+      lt, eq = z3.BoolVal(ka == 'int'), z3.BoolVal(False)
+    want = {'__lt__': lt, '__le__': z3.Or(lt, eq), '__gt__': z3.And(z3.Not(lt), z3.Not(eq)),
+            '__ge__': z3.Not(lt), '__eq__': eq, '__ne__': z3.Not(eq)}[op]
+    return r == want
